@@ -352,8 +352,8 @@ func (c *EvalCtx) ident(name string) tv {
 			return v
 		}
 	}
-	if _, ok := ex.P.CS.Ghosts[name]; ok {
-		return tv{ex.ghostVar(c.st, name), nil}
+	if g, ok := ex.P.CS.Ghosts[name]; ok {
+		return tv{ex.ghostVar(c.st, name), ex.specGoType(g.Type, g.PkgPath)}
 	}
 	if sf, ok := ex.P.CS.Specs[name]; ok && len(sf.Params) == 0 {
 		return tv{ex.specApp(sf, nil, c.pkgPath), nil}
@@ -788,6 +788,12 @@ func (c *EvalCtx) call(e *ast.CallExpr) tv {
 			c.errf("len of %s", t.Sort)
 		case "cap":
 			return tv{p.Acc(c.asTerm(c.eval(e.Args[0])), 3), nil}
+		case "hashOf":
+			a := c.asTerm(c.eval(e.Args[0]))
+			g := p.Func("hashOf", []*Sort{p.ArraySort(IntSort, IntSort)}, ex.tm.HashS)
+			return tv{p.App(g, a), nil}
+		case "hb":
+			return tv{ex.bytesOfAbstract(c.asTerm(c.eval(e.Args[0]))), nil}
 		case "off":
 			return tv{p.Acc(c.asTerm(c.eval(e.Args[0])), 1), nil}
 		case "ref":
